@@ -1,11 +1,19 @@
 #!/bin/sh
 # Full .vo build of the Coq development (no -vos). Usage: build_coq.sh [make targets...]
+# Everything (regenerating _CoqProject / Makefile from the tree and make itself) runs under one
+# lock, so that checks started at the same time cannot trip over each other's temporary files.
 set -e
-cd "$(dirname "$0")/../coq"
+self="$(cd "$(dirname "$0")" && pwd)/$(basename "$0")"
+cd "$(dirname "$self")/../coq"
+if [ -z "$BIOMV_BUILD_LOCKED" ]; then
+  BIOMV_BUILD_LOCKED=1; export BIOMV_BUILD_LOCKED
+  exec flock /verif/coq/.buildlock "$self" "$@"
+fi
+tmp=_CoqProject.new.$$
 { echo "-Q . BiomV"; echo "-arg -w -arg -notation-overridden,-deprecated-hint-without-locality,-deprecated-instance-without-locality";
-  find Base Model Gen Proofs Props Run -name '*.v' ! -name 'Extract*.v' | LC_ALL=C sort; } > _CoqProject.new
-if ! cmp -s _CoqProject.new _CoqProject 2>/dev/null; then mv _CoqProject.new _CoqProject; coq_makefile -f _CoqProject -o Makefile >/dev/null; else rm _CoqProject.new; fi
+  find Base Model Gen Proofs Props Run -name '*.v' ! -name 'Extract*.v' | LC_ALL=C sort; } > "$tmp"
+if ! cmp -s "$tmp" _CoqProject 2>/dev/null; then mv "$tmp" _CoqProject; coq_makefile -f _CoqProject -o Makefile >/dev/null; else rm -f "$tmp"; fi
 [ -f Makefile ] || coq_makefile -f _CoqProject -o Makefile >/dev/null
 # a runaway tactic must not take the machine down: 16 GB per coqc
 ulimit -v 16000000 2>/dev/null || true
-exec flock /verif/coq/.buildlock timeout 3000 make -j"${JOBS:-16}" "$@"
+exec timeout 3000 make -j"${JOBS:-16}" "$@"
